@@ -604,11 +604,20 @@ Definition solve_x (V : senv) (o : sle_oracle) (st : sle_st) (si : nat) (mol_sol
     end
   end.
 
-(* the index part of SLE._setup (after the repair pending_fixes/C15_2: _chemical is cleared whenever the
-   mixture branch is, or was, taken); the flag is false when list.index raises ValueError *)
+(* the index part of SLE._setup (after the repairs pending_fixes/C15_2: _chemical is cleared whenever the
+   mixture branch is, or was, taken; and C15_4: the solute position is recomputed when the remembered index is
+   reused); the flag is false when list.index raises ValueError.  A remembered index is always a list
+   (Proofs.sst_wf: a given solubility forgets the remembered chemicals), so the SAll case below is unreachable. *)
 Definition sle_setup (V : senv) (st : sle_st) (nz : list nat) (si : nat) : sle_st * bool :=
   if opt_eqb idx_eqb (e_nonzero st) (Some nz) then
-    (mksst (e_nonzero st) (e_index st) None (e_sgi st) true (e_act st), true)
+    match e_index st with
+    | SList l =>
+      match find_pos si l with
+      | Some p => (mksst (e_nonzero st) (e_index st) None (Some p) true (e_act st), true)
+      | None => (mksst (e_nonzero st) (e_index st) None (e_sgi st) true (e_act st), false)
+      end
+    | SAll => (mksst (e_nonzero st) (e_index st) None (e_sgi st) true (e_act st), false)
+    end
   else
     let index := filter (fun i => existsb (Nat.eqb i) nz) (s_lle_index V) in
     if Nat.eqb (length index) 1 then
@@ -639,7 +648,7 @@ Definition sle_call (V : senv) (o : sle_oracle) (st : sle_st) (s : sstrm) (a : s
         (* the two phase rows are bound from the indexer on this branch too (repair pending_fixes/C15_3;
            before it a new SLE object raised AttributeError here) *)
           let mol_solute := nthq (q_s s) si + nthq (q_l s) si in
-          let st := mksst (e_nonzero st) SAll (e_chemical st) (e_sgi st) true (e_act st) in
+          let st := mksst None SAll (e_chemical st) (e_sgi st) true (e_act st) in   (* _nonzero = None: C15_4 *)
           match update_solubility si SAll mol_solute (q_l s) (q_s s) x with
           | Err e => (st, s, Err e)
           | Ok ls => (st, sset_ls s ls, Ok tt)
